@@ -140,7 +140,8 @@ TExpectModel ==
   /\ IsEvent("ExpectModel")
   /\ LET want == TM!ModelTree(cwd, Ev.items, Ev.opts, Ev.filters, Ev.pre, Ev.answers).tree
          got  == Ev.tree
-     IN /\ Chk("harness: not enough prompt answers supplied", ~TM!Starved(cwd, Ev.items, Ev.opts, Ev.filters, Ev.pre, Ev.answers))
+     IN /\ Chk("exit status 255 iff the input ended at the overwrite prompt",
+               ("code" \in DOMAIN Ev) => ((Ev.code = 255) = (TM!ModelTree(cwd, Ev.items, Ev.opts, Ev.filters, Ev.pre, Ev.answers).policy = "eof")))
         /\ Chk("C06: entry missing from the extracted tree", \A loc \in DOMAIN want : \E i \in 1..Len(got) : got[i].loc = loc)
         /\ Chk("C06: unexpected entry in the extracted tree", \A i \in 1..Len(got) : got[i].loc \in DOMAIN want)
         /\ Chk("C06: entry differs from the model tree", \A i \in 1..Len(got) : got[i].loc \in DOMAIN want => TM!NodeMatches(want[got[i].loc], got[i]))
